@@ -52,8 +52,8 @@ pub fn meta(prop: &str) -> Meta {
         },
         "C06" => Meta {
             functions: &["frost_core::keys::split", "frost_core::keys::generate_with_dealer", "frost_core::keys::SecretShare::verify", "frost_core::keys::KeyPackage::try_from", "frost_core::keys::reconstruct", "frost_core::keys::validate_num_of_signers"],
-            bounds: "see DESIGN.md C06",
-            policy: Policy::ForkNonZero,
+            bounds: "quick: all 2<=t<=n<=4 and (5,3); thorough: all 2<=t<=n<=7 and (10,7); identifier sets default / u16-extreme / pseudo-random full-width (+ extreme scalars, non-contiguous, 3 more seeds in thorough). Honest consistency incl. reconstruct of every t-subset; tampering of every victim (default ids; first and last otherwise) in every coordinate: share value, each of the t commitment entries, identifier replaced by each other participant's, truncation, extension. Parameter grid {0,1,2,65534,65535}^2 and identifier-list refusals.",
+            outside: &["validate_num_of_signers for all u16 pairs is decided by the Kani kernel K6 (E2)", "n > 7 (10)", "symbolic identifiers"],
             ..base
         },
         _ => base,
